@@ -51,6 +51,22 @@ pub enum Site {
     Prepare { id: u32, params: Vec<ColGen> },
     /// `n` earlier PREPAREs (ids 1..=n, left open) on the same connection, then the PREPARE under test
     PrepareAfterMany { n: u32, id: u32, params: Vec<ColGen> },
+    /// a sequence of PREPAREs whose replies draw their ids from a small pool, so that the shim
+    /// hands out an id that is still open (or was closed: `close_before`) for another statement
+    /// with other parameter and column lists; every reply is checked.  `Case::cols` is unused.
+    PrepareSeq { replies: Vec<SeqReply> },
+}
+
+#[derive(Clone, Debug, Serialize, Deserialize)]
+pub struct SeqReply {
+    pub id: u32,
+    pub params: Vec<ColGen>,
+    pub cols: Vec<ColGen>,
+    /// COM_STMT_CLOSE for this id is sent before the PREPARE
+    pub close_before: bool,
+    /// long data for parameter 0 and/or an execution follow the reply (state for the next reply to trip over)
+    pub long_data_after: bool,
+    pub exec_after: bool,
 }
 
 #[derive(Clone, Debug, Serialize, Deserialize)]
@@ -131,7 +147,7 @@ impl Prop for C09 {
         "C09"
     }
     fn rule(&self) -> String {
-        "cases = a list of 0-1023 column descriptors (table/column names of 0 to 70000 bytes biased to 249-256 and 65534-65537, non-ASCII UTF-8, plus enumerated ~16 MiB names that make one definition as large as, or larger than, a wire packet; every ColumnType variant; flag words from all 16 bits) used as a text resultset header, a binary resultset header, or a PREPARE reply (arbitrary u32 statement id, independent parameter and column lists). Oracle: decoded count and per column table, name, type, flags in order equal the declared ones; PREPARE_OK id / num_params / num_columns equal; mysql_common's Column parser agrees. Non-trivial = > 250 columns, or a name > 250 bytes, or flags with >= 3 bits.".into()
+        "cases = a list of 0-1023 column descriptors (table/column names of 0 to 70000 bytes biased to 249-256 and 65534-65537, non-ASCII UTF-8, plus enumerated ~16 MiB names that make one definition as large as, or larger than, a wire packet; every ColumnType variant; flag words from all 16 bits) used as a text resultset header, a binary resultset header, or a PREPARE reply (arbitrary u32 statement id, independent parameter and column lists); one case in six is a sequence of 2-6 PREPAREs whose replies take their ids from a pool of three, so that an id that is still open (possibly with pending long data or after an execution) or was just closed is handed out again with other parameter / column lists, and every reply is checked. Oracle: decoded count and per column table, name, type, flags in order equal the declared ones; PREPARE_OK id / num_params / num_columns equal; mysql_common's Column parser agrees. Non-trivial = > 250 columns, or a name > 250 bytes, or flags with >= 3 bits.".into()
     }
     fn cases(&self, tier: Tier) -> u64 {
         tier.pick(60000, 600000)
@@ -140,6 +156,18 @@ impl Prop for C09 {
         12_000
     }
     fn gen(&self, g: &mut G<'_>, _tier: Tier) -> Case {
+        if g.chance(1, 6) {
+            let pool = [*g.pick(&[1u32, 0, 7, u32::MAX]), 2, 3];
+            let n = g.usize_in(2, 6);
+            let small = |g: &mut G<'_>| -> Vec<ColGen> {
+                let k = *g.pick(&[0usize, 0, 1, 1, 2, 3, 5]);
+                (0..k).map(|_| gen_colgen(g, true)).collect()
+            };
+            let replies = (0..n)
+                .map(|_| SeqReply { id: if g.chance(2, 3) { pool[0] } else { *g.pick(&pool) }, params: small(g), cols: small(g), close_before: g.chance(1, 4), long_data_after: g.chance(1, 4), exec_after: g.chance(1, 4) })
+                .collect();
+            return Case { cols: vec![], site: Site::PrepareSeq { replies } };
+        }
         let site = match g.below(3) {
             0 => Site::TextHeader,
             1 => Site::BinHeader,
@@ -185,6 +213,10 @@ impl Prop for C09 {
     fn exec(&self, case: &Case) -> Exec {
         let mut ex = Exec::default();
         let cols: Vec<ColSpec> = case.cols.iter().map(spec).collect();
+        if let Site::PrepareSeq { replies } = &case.site {
+            exec_seq(replies, &mut ex);
+            return ex;
+        }
         let all: Vec<&ColGen> = match &case.site {
             Site::Prepare { params, .. } | Site::PrepareAfterMany { params, .. } => case.cols.iter().chain(params.iter()).collect(),
             _ => case.cols.iter().collect(),
@@ -238,6 +270,7 @@ impl Prop for C09 {
                 cmds.push(Cmd::Ping);
                 (Conversation::new(cmds, actions), *n as usize)
             }
+            Site::PrepareSeq { .. } => unreachable!(),
             Site::Prepare { id, params } => {
                 ex.class("site:prepare-reply");
                 (
@@ -277,5 +310,69 @@ impl Prop for C09 {
             ex.fail("c09-second-opinion", m);
         }
         ex
+    }
+}
+
+
+/// `Site::PrepareSeq`: every PREPARE reply must carry its own id, counts and definitions, whatever
+/// the statement table held under that id before.
+fn exec_seq(replies: &[SeqReply], ex: &mut Exec) {
+    ex.class("site:prepare-replies-with-recurring-ids");
+    let mut cmds = Vec::new();
+    let mut actions = Vec::new();
+    let mut idx = Vec::new();
+    let mut live: std::collections::HashMap<u32, usize> = Default::default();
+    let mut reused_live_other_count = false;
+    for r in replies {
+        if r.close_before {
+            cmds.push(Cmd::Close { id: r.id });
+            live.remove(&r.id);
+        }
+        if let Some(&n) = live.get(&r.id) {
+            ex.class("id-of-an-open-statement-handed-out-again");
+            if n != r.params.len() {
+                reused_live_other_count = true;
+            }
+        }
+        idx.push(cmds.len());
+        cmds.push(Cmd::Prepare { text: Blob::text("p") });
+        actions.push(Action::Prepare(PrepProg::Reply { id: r.id, params: r.params.iter().map(spec).collect(), cols: r.cols.iter().map(spec).collect() }));
+        live.insert(r.id, r.params.len());
+        if r.long_data_after && !r.params.is_empty() {
+            cmds.push(Cmd::LongData { id: r.id, param: 0, data: Blob::text("pending") });
+        }
+        if r.exec_after {
+            let params: Vec<Param> = r.params.iter().map(|_| Param { coltype: T_LONG, unsigned: false, value: PVal::Int(5) }).collect();
+            cmds.push(Cmd::Execute { id: r.id, params, send_types: true, flags: 0, iterations: 1 });
+            actions.push(Action::Result(Program::completed(0, 0)));
+        }
+    }
+    cmds.push(Cmd::Ping);
+    if reused_live_other_count {
+        ex.nontrivial = true;
+        ex.class("open-id-reused-with-another-parameter-count");
+    }
+    let conv = Conversation::new(cmds, actions);
+    let o = run_with(&conv, None, false);
+    if let RunResult::Panic(p) = &o.result {
+        ex.fail(format!("c09-panic|{}", panic_signature(p)), format!("run_on panicked: {}", o.result.brief()));
+        return;
+    }
+    if !o.result.is_ok() {
+        ex.fail("c09-run-result", format!("run_on returned {}", o.result.brief()));
+        return;
+    }
+    let kinds: Vec<ReplyKind> = conv.cmds.iter().map(|sc| sc.cmd.reply_kind()).collect();
+    let d = decode_output(&o.out, &kinds);
+    if let Some(p) = &d.problem {
+        ex.fail("c09-nonconformant", format!("client decoder rejects the output: {}", p));
+        return;
+    }
+    let exps = expectations(&conv);
+    for (k, &i) in idx.iter().enumerate() {
+        if let Err(m) = check_reply(&exps[i], &d.replies[i], true) {
+            ex.fail("c09-metadata-differs", format!("PREPARE number {} of the connection (id {}): {}", k, replies[k].id, m.chars().take(400).collect::<String>()));
+            return;
+        }
     }
 }
